@@ -1,39 +1,53 @@
 --------------------------- MODULE MC_LoaderA ---------------------------
 (* Bounded exploration of LoaderA: callers fetch keys concurrently, a load   *)
-(* starts only for a miss with no load running, every caller returns a      *)
-(* value loaded for its key, an invalidation makes the next fetch miss.     *)
+(* starts only for a miss (or as the refresh of a stale value) with no load  *)
+(* running, every caller returns a value loaded for its key, an invalidation *)
+(* makes the next fetch miss, a value past its TTL inside the stale window   *)
+(* is served while one refresh runs and is then replaced.                    *)
 EXTENDS LoaderA
 CONSTANTS Callers, Keys, MaxLoads
 VARIABLES loads,   \* key |-> number of loads started
-          nextv, invalidated
-vars == <<loaderVars, loads, nextv, invalidated>>
+          nextv, invalidated, expired
+vars == <<loaderVars, loads, nextv, invalidated, expired>>
 Empty == [x \in {} |-> 0]
-Init == live = Empty /\ loading = {} /\ pend = Empty /\ loads = [k \in Keys |-> 0] /\ nextv = 1 /\ invalidated = 0
+Init == /\ live = Empty /\ loading = {} /\ pend = Empty /\ stale = {} /\ landing = Empty
+        /\ loads = [k \in Keys |-> 0] /\ nextv = 1 /\ invalidated = 0 /\ expired = 0
 
 Call(c, k) == /\ c \notin DOMAIN pend
-              /\ pend' = Put(pend, c, [op |-> "fetch", key |-> k, cand |-> IF Live(k) # 0 THEN {Live(k)} ELSE {}])
-              /\ UNCHANGED <<live, loading, loads, nextv, invalidated>>
-\* a miss with no load in flight elects a leader: the loader starts
-LoadStart(k) == /\ CanLoadStart(k) /\ \E c \in DOMAIN pend : pend[c].key = k /\ pend[c].cand = {}
+              /\ pend' = Put(pend, c, [op |-> "fetch", key |-> k, cand |-> CandNow(k)])
+              /\ UNCHANGED <<live, loading, stale, landing, loads, nextv, invalidated, expired>>
+\* a miss with no load in flight elects a leader, a stale hit starts the refresh: the loader starts
+LoadStart(k) == /\ CanLoadStart(k)
+                /\ \E c \in DOMAIN pend : pend[c].key = k /\ (pend[c].cand = {} \/ k \in stale)
                 /\ loads[k] < MaxLoads
                 /\ loading' = loading \cup {k} /\ loads' = [loads EXCEPT ![k] = @ + 1]
-                /\ UNCHANGED <<live, pend, nextv, invalidated>>
-LoadDone(k) == /\ k \in loading /\ loading' = loading \ {k} /\ live' = Put(live, k, nextv) /\ nextv' = nextv + 1
+                /\ UNCHANGED <<live, pend, stale, landing, nextv, invalidated, expired>>
+LoadDone(k) == /\ k \in loading /\ k \notin DOMAIN landing
+               /\ landing' = Put(landing, k, nextv) /\ nextv' = nextv + 1
                /\ pend' = [c \in DOMAIN pend |-> IF pend[c].key = k THEN [pend[c] EXCEPT !.cand = @ \cup {nextv}] ELSE pend[c]]
-               /\ UNCHANGED <<loads, invalidated>>
-Ret(c) == /\ c \in DOMAIN pend /\ pend[c].cand # {} /\ pend' = Drop1(pend, c)
-          /\ UNCHANGED <<live, loading, loads, nextv, invalidated>>
+               /\ UNCHANGED <<live, loading, stale, loads, invalidated, expired>>
+Land(k) == LandEffect(k) /\ UNCHANGED <<pend, loads, nextv, invalidated, expired>>
+\* a caller returns a value of its key; the value a load delivered is resident by then
+Ret(c) == /\ c \in DOMAIN pend /\ pend[c].cand # {}
+          /\ \E v \in pend[c].cand : ~(pend[c].key \in DOMAIN landing /\ landing[pend[c].key] = v)
+          /\ pend' = Drop1(pend, c)
+          /\ UNCHANGED <<live, loading, stale, landing, loads, nextv, invalidated, expired>>
 Invalidate(k) == /\ invalidated < 1 /\ Live(k) # 0 /\ k \notin loading /\ DOMAIN pend = {}
-                 /\ live' = Put(live, k, 0) /\ invalidated' = invalidated + 1
-                 /\ UNCHANGED <<loading, pend, loads, nextv>>
+                 /\ live' = Put(live, k, 0) /\ stale' = stale \ {k} /\ invalidated' = invalidated + 1
+                 /\ UNCHANGED <<loading, pend, landing, loads, nextv, expired>>
+\* the clock passes the TTL of every resident value
+Expire == /\ expired < 1 /\ stale' = {k \in Keys : Live(k) # 0} /\ expired' = expired + 1
+          /\ UNCHANGED <<live, loading, pend, landing, loads, nextv, invalidated>>
 Next == \/ \E c \in Callers, k \in Keys : Call(c, k)
-        \/ \E k \in Keys : LoadStart(k) \/ LoadDone(k) \/ Invalidate(k)
+        \/ \E k \in Keys : LoadStart(k) \/ LoadDone(k) \/ Land(k) \/ Invalidate(k)
         \/ \E c \in Callers : Ret(c)
+        \/ Expire
 Spec == Init /\ [][Next]_vars /\ WF_vars(Next)
-\* C15: never a load for a resident key, never two loads of one key at once; a caller
+\* C15: never a load for a fresh resident key, never two loads of one key at once; a caller
 \* that waits always has a load to wait for or a value to return
-SingleFlightInv == \A k \in Keys : (k \in loading => Live(k) = 0)
+SingleFlightInv == \A k \in Keys : (k \in loading => Live(k) = 0 \/ k \in stale)
 NoOrphanWaiter == \A c \in DOMAIN pend : pend[c].cand # {} \/ pend[c].key \in loading \/ CanLoadStart(pend[c].key)
-LoadsBounded == \A k \in Keys : loads[k] <= 1 + invalidated
-Inv == SingleFlightInv /\ NoOrphanWaiter /\ LoadsBounded
+LoadsBounded == \A k \in Keys : loads[k] <= 1 + invalidated + expired
+StaleIsLive == \A k \in stale : Live(k) # 0
+Inv == SingleFlightInv /\ NoOrphanWaiter /\ LoadsBounded /\ StaleIsLive
 =========================================================================
